@@ -222,6 +222,11 @@ func RunW2Scripted(prof *Profile, plan, sched *simrt.Source, trace bool) *RunOut
 		o.Infra = run.EndInfo
 		return o
 	}
+	if RaceMode {
+		CollectRaces(o)
+		o.NonTrivial = run.St.Decisions > 0
+		return o
+	}
 	views := BuildViews(run, sc.Calls)
 	var all []Violation
 	checkState := func(i int, m PoolModel, q *queryOut, r round, after, kind string) bool {
